@@ -10,10 +10,11 @@ RECURSIVE Strings(_)
 Strings(n) == IF n = 0 THEN {<<>>} ELSE LET prev == Strings(n - 1) IN prev \cup {Append(s, GvAlphabet[i]) : s \in {t \in prev : Len(t) = n - 1}, i \in 1..Len(GvAlphabet)}
 
 \* version set: number texts in increasing numeric order (rank = index), letters, revisions
-\* 0.5 0.6 0.7 1 - and other spellings of the same numbers (0.70 .7 00.7 0.7000000001 (the same 32-bit float) 1.0 01)
-Nums == << <<48, 46, 53>>, <<48, 46, 54>>, <<48, 46, 55>>, <<49>>,
+\* numbers in increasing order with their rank: 0.04 0.041 0.5 0.6 0.7 0.701 0.704 1 (neighbours that differ only in the third
+\* decimal) - and other spellings of 0.7 and 1 (0.70 .7 00.7 0.7000000001 (the same 32-bit float) 1.0 01)
+Nums == << <<48, 46, 48, 52>>, <<48, 46, 48, 52, 49>>, <<48, 46, 53>>, <<48, 46, 54>>, <<48, 46, 55>>, <<48, 46, 55, 48, 49>>, <<48, 46, 55, 48, 52>>, <<49>>,
            <<48, 46, 55, 48>>, <<46, 55>>, <<48, 48, 46, 55>>, <<48, 46, 55, 48, 48, 48, 48, 48, 48, 48, 48, 49>>, <<49, 46, 48>>, <<48, 49>> >>
-NumRank == <<1, 2, 3, 4, 3, 3, 3, 3, 4, 4>>
+NumRank == <<1, 2, 3, 4, 5, 6, 7, 8, 5, 5, 5, 5, 8, 8>>
 Letters == <<65, 69, 90, 101>>                                                     \* A E Z e(=E)
 Patches == <<-1, 0, 1, 12>>
 RECURSIVE Digits(_)
